@@ -404,3 +404,37 @@ func verifHashAgree(a, b Object) bool {
 //@ modifies nothing
 //@ ensures[C16.getslice.copy] result1 == nil ==> typeof(result0) == *List && ref(result0) != nil && fresh(result0) && fresh(result0.(*List).items) && exists(a, 0, len(ls.items) + 1, exists(b, a, len(ls.items) + 1, len(result0.(*List).items) == b - a && forall(k, 0, b - a, result0.(*List).items[k] == ls.items[a + k])))
 //@ ensures[C16.getslice.err] result1 != nil ==> result0 == nil
+
+// ---- C16: strings are indexed and sliced by code point ----------------------------------------------------------
+// Reference model: s[i] is string([]rune(s)[i]) and s[a:b] is string([]rune(s)[a:b]) for the normalised bounds
+// ResolveIndex / ResolveIntSlice accept (their contracts above). Assumed: []rune(s), string(runes) and string(rune)
+// are functions of their operands (engine model: go.runes, go.runes2str, go.rune2str).
+//@ func (*String).GetSlice
+//@ props C16
+//@ safety
+//@ requires s != nil
+//@ assume[slice.bounds.wf] (slice.Start != nil ==> ref(slice.Start) != nil) && (slice.Stop != nil ==> ref(slice.Stop) != nil)
+//@ let size = runecount(s.value)
+//@ let s0 = ite(slice.Start == nil, 0, slice.Start.(*Int).value)
+//@ let e0 = ite(slice.Stop == nil, size, slice.Stop.(*Int).value)
+//@ let ns = ite(s0 < 0, size + s0, s0)
+//@ let ne = ite(e0 < 0, size + e0, e0)
+//@ let typed = (slice.Start == nil || typeof(slice.Start) == *Int) && (slice.Stop == nil || typeof(slice.Stop) == *Int)
+//@ ensures[C16.string.slice] result1 == nil ==> typed && typeof(result0) == *String && ref(result0) != nil && result0.(*String).value == runesub(s.value, ns, ne)
+//@ ensures[C16.string.slice.ok] typed ==> (result1 == nil) == (0 <= ns && 0 <= ne && ns <= ne && ns <= size - 1 && ne <= size)
+
+//@ func (*String).GetItem
+//@ props C16
+//@ safety
+//@ requires s != nil && key != nil && ref(key) != nil
+//@ let size = runecount(s.value)
+//@ let i0 = key.(*Int).value
+//@ let ni = ite(i0 < 0, size + i0, i0)
+//@ ensures[C16.string.item] result1 == nil ==> typeof(key) == *Int && typeof(result0) == *String && ref(result0) != nil && result0.(*String).value == runeat(s.value, ni)
+//@ ensures[C16.string.item.ok] typeof(key) == *Int ==> (result1 == nil) == (0 <= ni && ni < size)
+
+// utf8.RuneCountInString(s) is len([]rune(s)) (so that an implementation counting code points without converting
+// still meets the contracts above).
+//@ external unicode/utf8.RuneCountInString
+//@ modifies nothing
+//@ ensures result == runecount(s)
